@@ -521,8 +521,10 @@ func (d *Datastore) TransactionCancel(ctx context.Context, transactionId string)
 
 func loadIntendedStoreHighestPrio(ctx context.Context, tscc tree.TreeCacheClient, r *tree.RootEntry, pathKeySet *tree.PathSet, skipIntents []string) error {
 
-	// Get all entries of the already existing intent
-	cacheEntries := tscc.ReadCurrentUpdatesHighestPriorities(ctx, pathKeySet.GetPaths(), 2)
+	// Get the highest priority entries per path. The entries of the intents that are part of the
+	// transaction are skipped below, so read one priority more than intents can be skipped, to
+	// still end up with the alternative that is provided by another intent.
+	cacheEntries := tscc.ReadCurrentUpdatesHighestPriorities(ctx, pathKeySet.GetPaths(), uint64(len(skipIntents))+1)
 
 	flags := tree.NewUpdateInsertFlags()
 
